@@ -10,6 +10,7 @@ import Driver.ResizeMem
 import Driver.Channel
 import Driver.Lifecycle
 import Driver.ServiceLife
+import Driver.ServiceCrash
 import Driver.RelPtr
 import Driver.ReqRes
 import Driver.WaitSet
@@ -61,6 +62,7 @@ def components : List (String × Comp) := [
   ("zcc", ChannelD.comp),
   ("lifecycle", LifecycleD.comp),
   ("svclife", ServiceLifeD.comp),
+  ("svccrash", ServiceCrashD.comp),
   ("relptr", RelPtrD.comp),
   ("reqres", ReqResD.comp),
   ("waitset", WaitSetD.comp),
